@@ -315,11 +315,17 @@ func propC14Args(t *rapid.T) {
 			c14CallW(s.WithLazy(args...), lvl, true, msg, nil)
 		case "withlazy-delayed", "with-delayed":
 			// derive, then run unrelated sugared calls before the child is first used
+			// (the argument list is the caller's scratch slice: refilled for the next call as soon as With/WithLazy
+			// has returned - the sugared WithLazy defers the evaluation of fields, not the reading of its arguments)
 			var child *zap.SugaredLogger
+			own := append([]interface{}(nil), args...)
 			if mode == "with-delayed" {
-				child = s.With(args...)
+				child = s.With(own...)
 			} else {
-				child = s.WithLazy(args...)
+				child = s.WithLazy(own...)
+			}
+			for j := range own {
+				own[j] = "recycled"
 			}
 			noise := zap.New(zapcore.NewNopCore()).Sugar()
 			noise.Infow("noise", "component", "cache", "hits", 7, "x", 1.5)
